@@ -500,7 +500,8 @@ def evaluate_cases(P, cases):
     return out
 
 
-def shrink_case(P, case, kind, budget=400):
+def shrink_case(P, case, kind, budget=None):
+    budget = budget or getattr(P, "SHRINK_BUDGET", 400)
     """greedy shrinking with the property's own candidate generator"""
     if not hasattr(P, "shrink"):
         return case
